@@ -90,11 +90,29 @@ claimed = {
          "4/C12"),
 }
 reasons = {}
+# phases added in the third session (round six): appended to the level text of the check concerned
+ADDED = {
+ "C01": " Plus the composition closure: every construct of the core language as a template, every template inside every hole of every other (bare and parenthesised; thorough: all triples of the one-hole templates) on 25 typed documents, against the reference.",
+ "C02": " Plus the composition closure over the built-in functions (every function form inside and around every other construct, functions of the element under every projection kind) on 25 typed documents, against the reference.",
+ "C05": " Plus the composition closure over the arithmetic operators (every operator form inside and around every other construct), against the reference.",
+ "C03": " Plus runs of one character (1-4 bytes wide, an invalid byte, blanks, escapes) of every length 1..70 and around every power of two to 65536, bare and inside 27 quoting / bracketing wrappers.",
+ "C06": " Plus phase routes: Search, Compile+Search and MustCompile+Search agree on every text of the composition closure and on 21 base texts decorated with each of 36 white-space / format / control characters, one compilation per route serving all 25 documents in both orders.",
+ "C07": " Exported package-level variables of the module's dependencies are part of the shared-state hash; every returned value is read again at the end of each execution; the race pass ends with 4300 different expressions evaluated sequentially and then eight goroutines evaluating 3000 further ones each.",
+ "C08": " Plus phase after-a-failure: every fault inside 14 constructs that have already stored something when it strikes, followed by each of 21 probes (lets that refer to names only the failed let bound, projections, joins, merges) through both routes, against the reference.",
+ "C09": " Plus phase all-texts (every string of 3 (4) scanner symbols and every sequence of up to three tokens under the iteration budget) and phase after-a-large-call (26 constructs: a three-element probe timed before and after the same construct on 2^20 elements; minimum of 31 runs, factor 50 and 200 microseconds).",
+ "C10": " The fully parenthesised spelling is also compared with the reference (a rewrite that treats both spellings alike).",
+ "C15": " Plus sibling members / bindings built from the same array, and phase other-document-first (one compilation, every ordered pair of 14 documents, against a fresh compilation).",
+ "C16": " Plus JSON values nested 1..70 and around every power of two to 4096 deep, strings and keys made of that many structural characters, long arrays and numbers; every value also through a compiled expression on two documents.",
+ "C17": " Plus identities over 8..300 members, pipes, parentheses and alternatives, and projections whose right-hand side holds further projections inside multi-selects, filters and arguments.",
+ "C19": " Plus two lets side by side (in a list, under an outer let, in a projection, piped).",
+ "C20": " Plus truthiness of every zero in every Go carrier and of 45 zero-computing expressions in nine contexts, and equality of operands in which the same container object occurs more than once (11 forms x all ordered pairs of values).",
+}
 checks = []
 for p in props:
     i = p["id"]
     if i in claimed:
         t, text, note, ref = claimed[i]
+        text = text + ADDED.get(i, "")
         checks.append({
             "property_id": i,
             "quick_cmd": f"bin/check {i} quick",
